@@ -4,6 +4,7 @@ Structural necessary conditions on KernelDG.check_for_loopcarried_dep / _extend_
 front end's selection of the longest cycle (DESIGN.md section 5, C05).
 """
 import ast
+import re
 
 from .. import pm
 from ..pm import U
@@ -125,6 +126,16 @@ def _unreachability_test(fi, e, pol):
     """Is the fact (e, pol) 'the target cannot be reached from the source' (or 'source/target is not on any such path')?"""
     fl = C.flow_of(fi)
     t = U(e)
+    # a root without outgoing edges starts no path at all
+    m_ = re.fullmatch(r"(\w+)\.out_degree\((.+)\) (>|==|>=|!=|<|<=) (\d+)", t)
+    if m_:
+        op, k = m_.group(3), int(m_.group(4))
+        has_edges = (op == ">" and k == 0) or (op == ">=" and k == 1) or (op == "!=" and k == 0)
+        no_edges = (op == "==" and k == 0) or (op == "<" and k == 1) or (op == "<=" and k == 0)
+        if (has_edges and not pol) or (no_edges and pol):
+            return True
+    if (not pol) and re.fullmatch(r"(\w+)\.out_degree\((.+)\)", t):
+        return True
     if pol and (t.startswith("not nx.has_path(") or " not in " in t):
         if t.startswith("not nx.has_path("):
             return True
@@ -162,6 +173,10 @@ def roots_and_depth(ctx, rule, f, ext, seq_calls, ext_calls, kernel_names):
                     if test is not None:
                         parts = [(v, True) for v in test.values] if isinstance(test, ast.BoolOp) and isinstance(test.op, ast.Or) else [(test, True)]
                     if parts and all(_unreachability_test(fi, e, p) for e, p in parts) and len(facts) <= len(parts) + 0:
+                        harmless.append(st)
+                    elif any(_unreachability_test(fi, e_, p_) for e_, p_ in C.norm_fact_nodes(st, stop=loop)):
+                        # skipped only where (among other things) no path can start at / reach the root: a conjunction
+                        # with an unreachability test skips fewer roots than that test alone
                         harmless.append(st)
             # the same in nested form: the search sits under `if not <unreachable>`: every guard of the call (inside the
             # loop) is the negation of an unreachability test; an iteration that gets past that `if` without searching is harmless
